@@ -2388,6 +2388,7 @@ class _Run:
         self.seen_states = {}   # id(node) -> joined state before the node (on demand via sa.hooks)
         self._read_before = {}  # id(read call) -> (key, position interval before the read) of the latest evaluation
         self._fkeys = None
+        self.executed = []      # statements the abstract run went through (in order, with repetitions)
         self.loose = []         # events after which positions are no longer exact knowledge (reasons, for the verdict policy)
         self.oracle = None      # PathOracle: follow ONE branch of every `if` that is not inside an inner loop
         self.loop_depth = 0
@@ -2686,6 +2687,7 @@ class _Run:
         if hk is not None:
             hk.append(st.copy())
         self._acc(st)
+        self.executed.append(s)
         if id(s) in self.cut:
             return Out()
         o = self._stmt(s, st.copy())
